@@ -259,6 +259,20 @@ theorem applyExtends_fuel_of_rank {β : Type} (mrg : β → β → β) (n : Nat)
     (hbound : ∀ x, (find x m0).isSome = true → rank x < n) : FuelEnough mrg n m0 :=
   fuelEnough_of_rank mrg n m0 rank hdown hbound
 
+/-- fuel sufficiency, for every services map: whatever a service denotes, it denotes within `length` steps — so
+running out of fuel means a circular reference, never a long chain -/
+theorem applyExtends_fuel_enough {β : Type} (mrg : β → β → β) (m0 : AL (XSvc β)) (j : Nat) :
+    FuelEnough mrg (m0.length + j) m0 := fuelEnough_length mrg m0 j
+
+/-- **`loader.ApplyExtends` is independent of the visit order, unconditionally** (fuel = number of services + 1, which
+is what the correspondence runs): every two complete visit orders fail or succeed alike and agree on the result -/
+theorem applyExtends_order_independent {β : Type} (mrg : β → β → β) (m0 : AL (XSvc β))
+    {order order' : List String} (hp : order'.Perm order) (hall : ∀ x, (find x m0).isSome = true → x ∈ order) :
+    (applyAll mrg (m0.length + 1) order' m0).isSome = (applyAll mrg (m0.length + 1) order m0).isSome ∧
+    ∀ mf mf', applyAll mrg (m0.length + 1) order m0 = some mf → applyAll mrg (m0.length + 1) order' m0 = some mf' →
+      ∀ x, find x mf' = find x mf :=
+  applyAll_perm mrg (m0.length + 1) m0 (fuelEnough_length mrg m0 1) hp hall
+
 /-- non-vacuity: worker → web → base, visited in two different orders, same result -/
 example :
     applyAll (fun (b o : List String) => b ++ o) 4 ["worker", "web", "base"]
